@@ -47,6 +47,10 @@ type ecdsaReq struct {
 	digest     []byte
 	reader     int
 	dev        kernel.DevCfg
+	// lastUse: the call is made on a key object imported from the key's
+	// bytes for this call alone - nothing references the object once the
+	// call has begun
+	lastUse bool
 }
 
 type ecdsaOut struct {
@@ -72,6 +76,9 @@ func (q *ecdsaReq) desc() string {
 		rd = "nil(crypto/rand.Reader=dev[" + q.dev.Summary() + "])"
 	case rdExplicitGlobal:
 		rd = "crypto/rand.Reader(=dev[" + q.dev.Summary() + "])"
+	}
+	if q.lastUse {
+		api += "(on a key object imported for this call alone)"
 	}
 	return fmt.Sprintf("%s key=%d opts=%s digest=%x rand=%s", api, q.key, q.optsDesc, q.digest, rd)
 }
@@ -223,7 +230,42 @@ func (w *World) genECDSAReq(stream string) *ecdsaReq {
 		q.reader = rdDevice
 		q.dev = w.genDevice(stream, 32)
 	}
+	if w.t.Chance(stream, "lastuse", 1, 6) {
+		q.lastUse = true
+		w.r.Fault("call_is_the_last_use_of_its_key_object")
+	}
 	return q
+}
+
+// signLastUse / signRawLastUse import the key and make the signing call the
+// only use of the object: the caller holds no reference while the library
+// works (and waits for the entropy reader).
+//
+//go:noinline
+func signLastUse(db []byte, rd io.Reader, digest []byte, opts crypto.SignerOpts) ([]byte, error) {
+	k, err := secec.NewPrivateKey(append([]byte(nil), db...))
+	if err != nil {
+		return nil, err
+	}
+	return k.Sign(rd, digest, opts)
+}
+
+//go:noinline
+func signRawLastUse(db []byte, rd io.Reader, digest []byte) (*secp256k1.Scalar, *secp256k1.Scalar, byte, error) {
+	k, err := secec.NewPrivateKey(append([]byte(nil), db...))
+	if err != nil {
+		return nil, nil, 0, err
+	}
+	return k.SignRaw(rd, digest)
+}
+
+//go:noinline
+func schnorrSignLastUse(db []byte, rd io.Reader, msg []byte, opts crypto.SignerOpts) ([]byte, error) {
+	k, err := secec.NewPrivateKey(append([]byte(nil), db...))
+	if err != nil {
+		return nil, err
+	}
+	return bitcoin.NewSchnorrPrivateKeyFromECDSA(k).Sign(rd, msg, opts)
 }
 
 // execECDSA performs the call.
@@ -245,9 +287,14 @@ func (w *World) execECDSA(q *ecdsaReq) *ecdsaOut {
 		if q.reader == rdExplicitGlobal {
 			rd = crand.Reader // the device, installed by withGlobalRand
 		}
-		if q.api == apiSign {
+		switch {
+		case q.lastUse && q.api == apiSign:
+			out.sig, out.err = signLastUse(sg.dBytes, rd, q.digest, q.opts)
+		case q.lastUse:
+			out.r, out.s, out.v, out.err = signRawLastUse(sg.dBytes, rd, q.digest)
+		case q.api == apiSign:
 			out.sig, out.err = sg.priv.Sign(rd, q.digest, q.opts)
-		} else {
+		default:
 			out.r, out.s, out.v, out.err = sg.priv.SignRaw(rd, q.digest)
 		}
 	}
@@ -1149,13 +1196,21 @@ func (w *World) runSchnorr(step, key int, msg []byte, cfg kernel.DevCfg, useNil 
 			w.r.Probe("schnorr_nil_message")
 		}
 	}
+	lastUse := w.t.Chance("ops", "sch.lastuse", 1, 6)
 	run := func() {
-		if useNil {
+		switch {
+		case useNil:
 			withGlobalRand(dev.Reader(), func() { po = protect(func() { sig, err = sg.sch.Sign(nil, msg, opts) }) })
-		} else {
+		case lastUse:
+			rd := dev.Reader()
+			po = protect(func() { sig, err = schnorrSignLastUse(sg.dBytes, rd, msg, opts) })
+		default:
 			rd := dev.Reader()
 			po = protect(func() { sig, err = sg.sch.Sign(rd, msg, opts) })
 		}
+	}
+	if lastUse && !useNil {
+		w.r.Fault("call_is_the_last_use_of_its_key_object")
 	}
 	if cfg.Helper {
 		kernel.OnFreshStack(run)
@@ -1165,6 +1220,9 @@ func (w *World) runSchnorr(step, key int, msg []byte, cfg kernel.DevCfg, useNil 
 	dev.Settle()
 	w.countDeviceFaults(dev)
 	desc := fmt.Sprintf("SchnorrSign key=%d msg=%x opts=%s rand=dev[%s] nil=%v", key, msg, optNames[oi], cfg.Summary(), useNil)
+	if lastUse && !useNil {
+		desc += " (on a key object imported for this call alone)"
+	}
 	outcome := "ok"
 	if po.panicked {
 		outcome = "panic:" + po.panicMsg
@@ -1499,4 +1557,75 @@ func RunDrbg(r *kernel.Run, step int, x *big.Int, digest []byte, reads, bufMode 
 		}
 	}
 	r.Probe("drbg_runs")
+}
+
+// ---------------------------------------------------------------- key-object churn
+
+// opKeyChurn: the caller's key OBJECTS come and go while the keys stay.  A
+// few passers-by are imported, used once and dropped; every key of the
+// history signs one (digest, entropy) pair; the caller then drops all its key
+// objects, the garbage collector runs to completion, and the same keys are
+// imported again from their bytes in another order - so that the new objects
+// sit where other, dead objects sat.  Everything a key does afterwards must
+// be what it did before: the same hedged signature for the same (key, digest,
+// entropy), the same Schnorr pair, the BIP-340 signature of the model.  An
+// object's address, or whatever a library remembers about objects that are
+// gone, is not an input of any of these functions.
+func (w *World) opKeyChurn(step int) {
+	digest := w.genDigest32("ops")
+	ent := w.t.Bytes("ops", "churn.ent", 32)
+	m := 1 + w.t.Choose("ops", "churn.passers", 12)
+	w.r.Fault("key_objects_dropped_collected_and_imported_again")
+	w.r.Hist("%d key churn: %d passers-by, digest=%x entropy=%x", step, m, digest, ent)
+	func() {
+		for j := 0; j < m; j++ {
+			d := w.drawPrivScalar("ops", "churn.d")
+			k, err := secec.NewPrivateKey(ref.I2OSP32(d))
+			if err != nil {
+				continue
+			}
+			_ = protect(func() {
+				_, _, _, _ = k.SignRaw(scripted(ent), digest)
+				sk := bitcoin.NewSchnorrPrivateKeyFromECDSA(k)
+				_, _ = sk.Sign(scripted(ent), digest, nil)
+				_ = k.PublicKey().CompressedBytes()
+			})
+		}
+	}()
+	signAll := func() {
+		for ki := range w.keys {
+			q := &ecdsaReq{key: ki, api: apiSignRaw, optsDesc: "-", hashSize: -1, encValid: true, digest: digest, reader: rdDevice,
+				dev: kernel.DevCfg{Payload: kernel.PayScripted, Script: ent, ErrAt: -1}}
+			w.runECDSA(step, q)
+			w.runSchnorr(step, ki, digest, kernel.DevCfg{Payload: kernel.PayScripted, Script: ent, ErrAt: -1}, false)
+		}
+	}
+	signAll()
+	for _, sg := range w.keys {
+		sg.priv, sg.sch = nil, nil
+	}
+	kernel.CollectGarbage(1 + w.t.Choose("ops", "churn.gc", 2))
+	rot := w.t.Choose("ops", "churn.rot", len(w.keys))
+	for i := range w.keys {
+		ki := (i + rot) % len(w.keys)
+		sg := w.keys[ki]
+		sg.supplied = append([]byte(nil), sg.dBytes...)
+		np, err := secec.NewPrivateKey(sg.supplied)
+		if err != nil {
+			w.r.Violate("HARNESS", "fixture-key-import", "NewPrivateKey", step, "NewPrivateKey rejected scalar %x in [1,n) on re-import: %v", sg.dBytes, err)
+			// nothing can proceed without the key
+			np, _ = secec.NewPrivateKey(append([]byte(nil), sg.dBytes...))
+			if np == nil {
+				panic("sign world: a fixture key cannot be imported again")
+			}
+		}
+		sg.priv = np
+		sg.sch = bitcoin.NewSchnorrPrivateKeyFromECDSA(np)
+		w.checkSchnorrKey(step, fmt.Sprintf("fromECDSA[%d] after the key object was dropped, collected and imported again", ki), sg.sch, sg.d)
+		if !bytes.Equal(np.PublicKey().Bytes(), sg.qBytes) {
+			w.r.Violate("C08", "wrong-public-key", "NewPrivateKey", step, "key %d imported again: public key %x, model %x", ki, np.PublicKey().Bytes(), sg.qBytes)
+		}
+	}
+	signAll()
+	w.r.Probe("key_churn_rounds")
 }
